@@ -479,12 +479,17 @@ static int tls_finish(struct xcm_socket *s)
 		  ts->conn.badness_reason);
 
     int rc = 0;
+    int send_errno = 0;
 
-    if (s->type == xcm_socket_type_conn && try_finish_send(s) < 0)
+    if (s->type == xcm_socket_type_conn && try_finish_send(s) < 0) {
 	rc = -1;
+	send_errno = errno;
+    }
 
     if (xcm_tp_socket_finish(ts->btls_socket) < 0)
 	rc = -1;
+    else if (rc < 0)
+	errno = send_errno;
 
     return rc;
 }
